@@ -1,14 +1,15 @@
 """C05 — tracking results are independent of shard count and thread schedule."""
 from trkgen import *
+import importlib
 
 ID = "C05"
 THEOREM_MODULES = ["SimVerif.Props.C05", "SimVerif.Props.C05b"]
 THEOREM_MODULE = "SimVerif.Props.C05"
-NONTRIVIAL_FLAGS = {"shards-interleaved", "jittered-commands", "compared-nonempty", "competition", "continuation", "compare-with-ids"}
+NONTRIVIAL_FLAGS = {"fallback", "multi-cand", "multi-query", "shards-interleaved", "jittered-commands", "compared-nonempty", "competition", "continuation", "compare-with-ids"}
 RULE = ("each random multi-object history is run on the real tracker with 1 shard (reference) and with 2..8 shards under seeded random delays of the store workers (similari_verif hook at every command begin, several seeds), "
         "in separate tracker instances of one executor; per scene the record streams are compared with the reference — including the raw track ids for the simple trackers (`trk cmpids`), up to renaming for the batch trackers; "
         "every call of every run is also compared with the model and its choice validated; the executor reports how many store commands ran under each plan and how often consecutive commands ran on different shards; "
-        "non-trivial = a run in which the workers' commands were actually interleaved, a non-empty comparison, competing detections, continuations; distinct = distinct request line")
+        "the voting engines are additionally fed the same distance stream in several arrival orders (permuted, reversed); non-trivial = a run in which the workers' commands were actually interleaved, a non-empty comparison, competing detections, continuations; distinct = distinct request line")
 TRUSTED_BASE = ["Lean 4.33 kernel", "axioms: propext, Quot.sound, Classical.choice (at most)",
                 "models SimVerif/Model/Store.lean (sharded query), Model/Tracker.lean (the step does not mention the shard count) tied to the code by the differential runs",
                 "real OS scheduling is only sampled (seeded delays through the hook); the theorems are about the interleaving model at command granularity (every arrival order of the per-shard chunks)"]
@@ -31,7 +32,7 @@ def generate(rng, tier):
     n, steps = {"quick": (12, 20), "thorough": (150, 40), "search": (40, 25)}.get(tier, (12, 20))
     cases = []
     for i in range(n):
-        kind = ["sort", "bsort"][i % 2]
+        kind = ["sort", "bsort", "visual", "bvisual"][i % 4]
         h = history(rng, kind, steps, api_mix=(i % 3 == 0))
         out = ["trk sel 0"] + reshard(h, 1, 1)
         variants = rng.sample([2, 3, 4, 5, 8], 3)
@@ -42,8 +43,13 @@ def generate(rng, tier):
             out.append("trk sched off")
         for k in range(len(variants)):
             for s in scenes_of(h):
-                out.append("trk %s 0 %d %d" % ("cmpids" if kind == "sort" else "cmp", k + 1, s))
+                out.append("trk %s 0 %d %d" % ("cmpids" if kind in ("sort", "visual") else "cmp", k + 1, s))
         cases.append(out)
+    # the order in which the workers' chunks arrive is the order of the distance stream the voting engines read:
+    # the same stream in several orders (permutations, reversed) must give the model's (order independent) answer
+    c17 = importlib.import_module("props.C17")
+    votes = [c for c in c17.generate(rng, tier) if c[0].startswith("vote best") or c[0].startswith("vote topn")]
+    cases += votes[:{"quick": 300, "thorough": 6000, "search": 1500}.get(tier, 300)]
     return cases
 
 
@@ -51,5 +57,5 @@ def shape_key(case, results):
     for r in results:
         if not r.o or not r.k or r.bad:
             t = r.req.split()
-            return "trk-" + t[1]
+            return t[0] + "-" + t[1]
     return "none"
